@@ -162,7 +162,8 @@ package kfake
 // watermark backwards). (The decoded batch is a local whose address was handed to ReadFrom: after later calls the
 // verifier no longer knows its fields, hence the two program points.)
 //@ func (c *Cluster) handleProduce(creq *clientReq) (resp kmsg.Response, err error)
-//@   prop C29
+//@   prop C29 C32
+//@   abstract call pushBatch
 //@   site call pushAndValidate#0 assert [window-consulted-with-the-batchs-own-numbers] arg1 == b.ProducerEpoch && arg2 == b.FirstSequence && arg3 == b.NumRecords && arg4 == pd.highWatermark
 //@   site call pushBatch#0 assert [appended-only-when-validated-and-new] errCode == 0 && !dup && arg1 == pd
 //@   site call get#0 assert [record-count-validated-before-producer-state-is-touched] b.NumRecords > 0 && b.LastOffsetDelta == b.NumRecords - 1
